@@ -218,6 +218,15 @@ def run_case(case, ctx):
                         compare(ctx, K + "/unseen", out2, exp2, t2, cfg,
                                 "unseen category at row %d (position %d of %d) column %r" % (
                                     i, cat_cols.index(c), len(cat_cols), c))
+        # 3. the same transformer after all those refused / skipping calls: the first frame gives the first answer
+        if not err and raised is None:
+            try:
+                out3 = tr.transform(test)
+                ctx.hit("transform.after_refused_calls")
+                compare(ctx, K + "/after-refused-calls", out3, exp, test, cfg, "seen categories, after %d calls with an "
+                        "unseen category on the same object" % (len(test) * len(cat_cols)))
+            except Exception as e:
+                ctx.violation(K + "/after-refused-calls/raised/%s" % type(e).__name__, str(e)[:150], cfg=cfg)
         if len(cat_cols) >= 2:
             ctx.nontriv(cfg, skip)
     # fit_transform = fit then transform
